@@ -75,6 +75,48 @@ theorem slices_and_indices_select {α : Type} (rows : List α) (m : List Bool) (
   simp only [List.drop_zero] at h1 h2
   exact ⟨h1, h2, length_indicesAux m 0⟩
 
+/-! ### take -/
+
+/-- **`take` = `takeSpec`** (`take` → `check_bounds` → `take_impl` → `take_primitive` =
+`take_native` + `take_nulls`/`take_bits`), for every index type (`maxIdx`), with or without
+`check_bounds`, for index arrays with or without a validity buffer (whatever raw value sits
+under a null slot, in or out of range), duplicates and the empty index list included:
+* if every *valid* index is in range the kernel succeeds and the result decodes to
+  `values[index]` for a valid index and a null row for a null index;
+* if some valid index is out of range (negative or ≥ len) the kernel never returns rows
+  (it returns `Err` or panics, depending on `check_bounds`). -/
+theorem take_correct {α : Type} [Inhabited α] (maxIdx : Nat) (check : Bool) (a : Arr α) (hwf : a.WF)
+    (idx : IdxArr) (hiw : idx.WF) :
+    match takeSpec a.decode idx.decode with
+    | some r => ∃ out, takeKernel maxIdx check a idx = .ok out ∧ out.decode = r
+    | none => ∀ out, takeKernel maxIdx check a idx ≠ .ok out :=
+  takeKernel_spec maxIdx check a hwf idx hiw
+
+/-- non-vacuity: an index array with a null slot holding an out-of-range raw value -/
+example : (⟨[2, 99, 0], some [true, false, true]⟩ : IdxArr).WF ∧
+    takeSpec [some 'a', none, some 'c'] (⟨[2, 99, 0], some [true, false, true]⟩ : IdxArr).decode
+      = some [some 'c', none, some 'a'] := by
+  constructor
+  · intro bs h; cases h; rfl
+  · decide
+
+/-! ### concat, nullif -/
+
+/-- **`concat`** (`concat_primitives`: `append_array` per input, validity materialised only when
+a null was appended): the result decodes to the concatenation of the inputs' rows and is
+well formed. -/
+theorem concat_correct {α : Type} (arrs : List (Arr α)) (hwf : ∀ a ∈ arrs, a.WF) :
+    (concatPrimitive arrs).decode = concatSpec (arrs.map Arr.decode) ∧ (concatPrimitive arrs).WF :=
+  concatPrimitive_decode arrs hwf
+
+/-- **`nullif`**: validity `left & !(right_values & right_validity)` — row `i` becomes null
+exactly when `right[i]` is a valid `true`; everything else (values, other nulls) is kept;
+a length mismatch is rejected. -/
+theorem nullif_correct {α : Type} (a : Arr α) (hwf : a.WF) (r : List (Option Bool)) :
+    (a.len = r.length → ∃ out, nullifKernel a r = some out ∧ out.decode = nullifSpec a.decode r) ∧
+    (a.len ≠ r.length → nullifKernel a r = none) :=
+  nullifKernel_decode a hwf r
+
 /-! ### batch coalescer -/
 
 /-- the freshly constructed coalescer satisfies the invariant -/
